@@ -101,6 +101,18 @@ def run(index, tier="quick", seed=0) -> Result:
         for p in params:
             if p in ARRAY_PARAMS and p not in bad_params:
                 res.ok("CT-1", f"{label}:{p}", sample={"ctor": label, "param": p, "verdict": "copied before any store"})
+        # ---------------------------------------------------------------- CT-8 coordinate state is stored as floating point
+        # an array built from the caller's data without a dtype keeps an integer dtype for integer input ([[0, 0], [1, 0], [0, 1]],
+        # center=(1, 2, 3)); every later in-place scaling / translation of that state truncates or raises
+        for e in r["events"]:
+            if e.type == "write" and e.mode == "rebind" and e.rhs is not None and e.loc[1] in ("_vertices", "_normal") \
+                    and "maybe-int" in e.rhs.tags:
+                res.bad("CT-8", f"{label}:{e.loc[1]}:caller-dtype", e.where(), f"{label} stores {e.loc[1]} with the caller's dtype (`{e.src()[:60]}`): integer "
+                        "coordinates - documented input - stay an integer array, and the in-place arithmetic of the setters (`*= scale`, `+= shift`) "
+                        "then truncates or raises instead of moving the shape")
+        if any(e.type == "write" and e.loc[1] == "_vertices" for e in r["events"]):
+            if not any(f_.rule == "CT-8" and f_.key.startswith(label + ":") for f_ in res.findings):
+                res.ok("CT-8", label, nontrivial=False)
         # ---------------------------------------------------------------- CT-7 the stored normal is a unit vector
         for e in r["events"]:
             if e.type == "write" and e.loc[1] == "_normal" and e.rhs is not None and e.mode == "rebind":
@@ -212,6 +224,10 @@ def run(index, tier="quick", seed=0) -> Result:
                 res.bad("CT-2", k + ":nonstrict", ws[0].where(), f"{label} accepts {p} == 0: only a non-strict test guards {attr}")
             elif mode == "nonneg" and strict and not nonneg:
                 res.bad("CT-2", k + ":toostrict", ws[0].where(), f"{label} rejects rounding radius 0: only a strict test guards {attr}")
+            elif [e for e in g.nan_writes if e.loc[1] == attr]:
+                e_ = [e for e in g.nan_writes if e.loc[1] == attr][0]
+                res.bad("CT-2", k + ":nan", e_.where(), f"{label} stores a NaN `{p}` into {attr}: the positivity test is written as a refusal "
+                        "(`if value <= 0: raise`), which NaN passes because every comparison with NaN is false")
             elif g.wrong_exc:
                 res.bad("CT-3", k, g.wrong_exc[0][0].where(), f"{label} refuses a bad `{p}` with {g.wrong_exc[0][1]}, not ValueError")
             else:
